@@ -17,7 +17,7 @@ RULE = ('Random schemas (nested messages, fixed and variable arrays, arrays of m
         'contains_index, integer bounds of UINT8..INT64, constructor rejections. evaluations = schema checks + helper '
         'comparisons; non-trivial = a fault was injected or a nested schema was navigated; distinct = (fault kind, '
         'position kind, event position, schema shape).')
-RULE_ADDED = ' Since the seeding rounds: weak first occurrence, two valid schemas in turn, zero lengths, float-spelled indices, fault number-as-compound, shared message tokens, small-scope enumeration of type-token declarations.'
+RULE_ADDED = ' Since the seeding rounds: weak first occurrence, two valid schemas in turn, zero lengths, float-spelled indices, fault number-as-compound, shared message tokens, small-scope enumeration of type-token declarations, nested message types that declare constants only.'
 ASSUMPTIONS = ['on failure any of TypeError/IndexError/HplSanityError/KeyError counts as "an error"; its message must '
                'mention the offending field name or index', 'unknown topics, missing alias entries and non-integer '
                'literal indices are caller errors and not judged']
@@ -48,6 +48,8 @@ def extra_fields(rng, sch, n):
     f[f'qf{n}'] = ('arr', gen.NUM, rng.choice((0, 1, 2, 3, 5)))
     f[f'qm{n}'] = ('msg', {f'in{n}': gen.NUM, f'deep{n}': ('msg', {f'leaf{n}': gen.NUM}, {})}, {})
     f[f'qy{n}'] = ('arr', gen.NUM, -1)
+    # a nested message type that declares constants only (no fields at all), and beneath it nothing else
+    f[f'qk{n}'] = ('msg', {}, {f'KON{n}': (gen.NUM, rng.choice((0, 1, 7)))})
     f[f'qp{n}'] = gen.NUM  # two fields only ever compared with each other: any primitive declaration fits
     f[f'qq{n}'] = gen.NUM
     return ('msg', f, dict(sch[2]))
@@ -60,7 +62,7 @@ def numeric_reference(rng, fault, root, n, sch, position=None):
     flen = sch[1][f'qf{n}'][2]
     if fault is None:
         opts = [F(f'qn{n}'), ('index', F(f'qa{n}'), A.num('7')), F(f'in{n}', F(f'qm{n}')),
-                F(f'leaf{n}', F(f'deep{n}', F(f'qm{n}')))]
+                F(f'leaf{n}', F(f'deep{n}', F(f'qm{n}'))), F(f'KON{n}', F(f'qk{n}'))]
         if flen > 0:  # an array declared with length 0 has no valid literal index
             opts.append(('index', F(f'qf{n}'), A.num(str(flen - 1))))
         return gen.pick(rng, opts), None
@@ -68,6 +70,8 @@ def numeric_reference(rng, fault, root, n, sch, position=None):
         d = rng.randrange(3)
         bogus = f'nope{n}'
         r = (F(bogus), F(bogus, F(f'qm{n}')), F(bogus, F(f'deep{n}', F(f'qm{n}'))))[d]
+        if rng.random() < 0.15:
+            r = F(bogus, F(f'qk{n}'))
         return r, bogus
     if fault == 'field-as-array':
         return ('index', F(f'qn{n}'), A.num('0')), f'qn{n}'
